@@ -386,6 +386,36 @@ fn run(ctx: &mut Ctx) {
     for opts in [&[][..], &["-U"][..]] {
         run_pair_model(ctx, opts, if thorough { 7 } else { 5 });
     }
+    // ---- other epochs (see shim::EPOCH_VARIANTS): the first frame of a pair lies on the other side of
+    // midnight / the year / the 32-bit time_t wrap, or the two stamps differ in their sub-second parts
+    for (es, ens, ename) in crate::shim::EPOCH_VARIANTS {
+        crate::shim::set_epoch(es, ens);
+        squitterator::set_observer_coords_from_str(OBSERVERS[0].0);
+        for opts in [&[][..], &["-U"][..]] {
+            let cfg = Cfg::new(opts);
+            for &delay in &[0i64, 1, 999, 1_000, 3_000, 3_251, 5_500, 9_000, 9_999, 10_000, 10_001, 12_500, 13_000] {
+                job += 1;
+                if !ctx.mine(job) {
+                    continue;
+                }
+                let mut pairs = vec![];
+                for &lat in &mids {
+                    for &lon in &LONS[2..7] {
+                        for first_odd in [false, true] {
+                            pairs.push(Pair { p1: (lat, lon), p2: displace(lat, lon, 1), first_odd, delay_ms: delay, foreign: 0, ac12: None });
+                        }
+                    }
+                }
+                ctx.count_n(&format!("lattice:epoch {ename}"), pairs.len() as u64);
+                run_lattice(ctx, &cfg, OBSERVERS[0].1, OBSERVERS[0].0, &pairs);
+            }
+        }
+        squitterator::set_observer_coords_from_str(rowmodel::OBSERVER_STR);
+        for opts in [&[][..], &["-U"][..]] {
+            run_pair_model(ctx, opts, if thorough { 5 } else { 4 });
+        }
+        crate::shim::reset_epoch();
+    }
     ctx.sample(|| json!({"pair": {"even": pframe(A, (52.2572, 3.91937), false).hex(), "odd": pframe(A, (52.2572, 3.91937), true).hex(), "delay_ms": 9999}, "expected": "position (52.2572, 3.9194) within 20 m"}));
     ctx.sample(|| json!({"PAIR history": ["even p1", "tick 11000 ms", "odd p1", "tick 4000 ms", "even p2"], "expected": "no position after step 3; decode anchored on even p2 after step 5"}));
     ctx.bound("lattice latitudes", lats.len());
